@@ -43,6 +43,9 @@ def file_descs(tier):
             if fmt == 'cloud_rain':
                 variants.append(dict(base, crv3=True, nsteps=3))
                 variants.append(dict(base, crv3=True, nsteps=2, shape=[2, 2, 1]))
+        if fmt in HEADERLESS:
+            # half-hourly stamps from midnight (HHMM 0, 30, 100): the first steps lie within the first hour
+            variants.append(dict(base, nsteps=3, start=1, subhourly=True, shape=[2, 2, 1]))
         if fmt == 'cloud_rain':
             variants.append(dict(base, crv3=True, nsteps=2))
         seen = set()
@@ -487,7 +490,9 @@ class Prop(c09.Prop):
                 vs.append(viol(c, ('truncated', fmt, cls),
                                'prefix of %d/%d bytes (%s, %d complete steps) opened silently: %s'
                                % (cut, len(raw), cls, complete, det), cutclass=cls, complete=complete,
-                               exposed=int(s), **scope0))
+                               exposed=int(s), subhourly=bool(d.get('subhourly')),
+                               stamps_below_one_hour=bool(d.get('subhourly')) and s >= 1 and
+                               max(t for t, _ in r['times'][:s]) < 100, **scope0))
             else:
                 key = 'prefix-ok-%d-steps' % s if s else 'prefix-ok-0-steps'
                 outcomes[key] = outcomes.get(key, 0) + 1
